@@ -81,7 +81,7 @@ class PeriodicRun:
 
         class HCms(Cms):
             def on_sense(self, sensor, time, data):
-                run.cms_log.append((sensor, time, list(data)))
+                run.cms_log.append((sensor, time, list(data), self))
                 run.keep(data, time, 'the Cms')
 
         with instrument.use_bus(self.bus):
@@ -100,6 +100,8 @@ class PeriodicRun:
             self.classes = (PeriodicSensor, Sensor, HCms, Maintainer)
             self.sensor = None
             self.cms = None
+            self.more_cms = []          # further condition-monitoring systems watching the same sensor
+            self.ncb = 0
             self.cb_log = []
             self.cms_log = []
             self.kept = []
@@ -123,7 +125,7 @@ class PeriodicRun:
         else:
             self.sensor = Sensor(self.probes, name='sensor', **kw)
         for j in range(case['callbacks']):
-            self.sensor.add_on_sense_callback(self.make_cb(j))
+            self.add_cb()
         if case['cms']:
             self.cms = HCms(Maintainer(name='m'), name='cms')
             for _ in range(case['cms']):
@@ -135,6 +137,21 @@ class PeriodicRun:
                 self.cms.add_sensor(self.twin)
                 self.cms.add_sensor(self.sensor)
                 self.cms.add_sensor(self.twin)
+            if case.get('cms2'):
+                # a second, independent condition-monitoring system watches the same sensor(s)
+                self.add_cms()
+
+    def add_cb(self):
+        self.sensor.add_on_sense_callback(self.make_cb(self.ncb))
+        self.ncb += 1
+
+    def add_cms(self):
+        PeriodicSensor, Sensor, HCms, Maintainer = self.classes
+        c = HCms(Maintainer(name='m'), name='cms')
+        if self.twin is not None and len(self.more_cms) % 2 == 0:
+            c.add_sensor(self.twin)
+        c.add_sensor(self.sensor)
+        self.more_cms.append(c)
 
     def keep(self, data, time, who):
         # a consumer may keep the list of values it was handed (a Cms logging its measurements does): it is that
@@ -195,6 +212,17 @@ class PeriodicRun:
                     return
                 self.pending = (self.env.now, self.probe_values())
                 self.sensor.sense()
+            elif kind == 'add_cb':
+                # a consumer subscribes while the run is under way: it is called from the next measurement on
+                if self.sensor is not None:
+                    self.add_cb()
+                    self.sh.count('callbacks_registered_after_measurements' if self.count else
+                                  'callbacks_registered_mid_run_before_any_measurement')
+            elif kind == 'add_cms':
+                if self.sensor is not None:
+                    self.add_cms()
+                    self.sh.count('cms_registered_after_measurements' if self.count else
+                                  'cms_registered_mid_run_before_any_measurement')
         act.__name__ = 'script_' + op[0]
         return act
 
@@ -221,7 +249,7 @@ class PeriodicRun:
                 self.t_next = t + case['interval']
             self.expected.append((t, vals))
             # callbacks: once each, in registration order, (sensor, now, values)
-            want_cb = list(range(case['callbacks']))
+            want_cb = list(range(self.ncb))
             got = [c for c in self.cb_log]
             self.cb_log = []
             # the cms callback is registered through add_on_sense_callback too (after ours)
@@ -235,13 +263,21 @@ class PeriodicRun:
                     return
             self.sh.count('callback_calls_checked', len(got))
             if self.cms is not None:
-                got = [g for g in self.cms_log if g[0] is self.sensor]
-                self.cms_log = [g for g in self.cms_log if g[0] is not self.sensor]
+                got = [g for g in self.cms_log if g[0] is self.sensor and g[3] is self.cms]
                 if len(got) != 1 or got[0][0] is not self.sensor or got[0][1] != t or got[0][2] != vals:
                     self.fail('cms', f'measurement at {t!r}: cms (sensor added {case["cms"]}x) received '
                               f'{[(g[1], g[2]) for g in got]}')
                     return
                 self.sh.count('cms_deliveries_checked')
+            for n, c in enumerate(self.more_cms):
+                got = [g for g in self.cms_log if g[0] is self.sensor and g[3] is c]
+                if len(got) != 1 or got[0][1] != t or got[0][2] != vals:
+                    self.fail('cms', f'measurement at {t!r}: condition-monitoring system #{n + 2} watching the sensor '
+                              f'received {[(g[1], g[2]) for g in got]}, expected once ({t!r}, {vals})')
+                    return
+                self.sh.count('cms_deliveries_checked')
+                self.sh.count('further_cms_deliveries_checked')
+            self.cms_log = [g for g in self.cms_log if g[0] is not self.sensor]
             if self.sensor.last_sense != vals:
                 self.fail('last_sense', f'last_sense {self.sensor.last_sense} after measuring {vals} at {t!r}')
                 return
@@ -260,11 +296,12 @@ class PeriodicRun:
                 and instrument.action_owner(ev.action) is self.twin and not ev.cancelled:
             got = [g for g in self.cms_log if g[0] is self.twin]
             self.cms_log = [g for g in self.cms_log if g[0] is not self.twin]
-            if len(got) != 1:
-                self.fail('cms', f'the cms received the measurement of the second, same-named sensor at {now!r} '
-                          f'{len(got)} times')
+            want = [self.cms] + [c for n, c in enumerate(self.more_cms) if n % 2 == 0]
+            if sorted(id(g[3]) for g in got) != sorted(id(c) for c in want):
+                self.fail('cms', f'the measurement of the second, same-named sensor at {now!r} was delivered '
+                          f'{len(got)} times, {len(want)} condition-monitoring system(s) watch it (each once)')
                 return
-            self.sh.count('cms_deliveries_checked')
+            self.sh.count('cms_deliveries_checked', len(want))
         self.check_data()
 
     def check_data(self):
@@ -316,6 +353,11 @@ class PeriodicRun:
                         # the sensor is mounted between two simulate() calls: it counts from now
                         self.t0 = self.env.now
                         self.make_sensor()
+                    elif n == 0 and len(case['horizon']) > 1 and case.get('between') and self.sensor is not None:
+                        # consumers subscribing between two simulate() calls
+                        for what in case['between']:
+                            (self.add_cb if what == 'cb' else self.add_cms)()
+                            self.sh.count('consumers_registered_between_runs')
             except Exception as e:
                 import traceback
                 self.fail('crash', f'{type(e).__name__}: {e} {traceback.format_exc()[-1000:]}')
@@ -378,14 +420,26 @@ class PartRun:
         self.skipped = 0
         self.measured_idx = []
         self.cb_failed = False
+        self.order = []
+        self.cb2_on = False
 
     def fail(self, name, msg):
         if not self.failed:
             self.failed = True
             self.sh.violation(name, msg, self.case, engine='part_sensor', witness={'now': self.env.now})
 
+    def on_sense2(self, s, t, d):
+        self.order.append(('late subscriber', t, list(d)))
+
+    def subscribe_late(self):
+        # a second consumer subscribes while the run is under way (after measurements have been made, usually)
+        self.sensor.add_on_sense_callback(self.on_sense2)
+        self.cb2_on = True
+        self.sh.count('part_sensor_callbacks_registered_mid_run')
+
     def on_sense(self, s, t, d):
         self.cb_log.append((s, t, list(d)))
+        self.order.append(('first subscriber', t, list(d)))
         self.measured_idx.append(len(self.finished) - 1)
         if self.case.get('cb_fails') and len(self.measured_idx) == self.case['cb_fails'] and not self.cb_failed:
             self.cb_failed = True
@@ -420,8 +474,21 @@ class PartRun:
             if len(lens) > 1:
                 self.fail('alignment', f'series of different lengths: {[len(v) for v in self.sensor.data.values()]}')
             self.cb_log = []
+            self.order = []
             self.sh.count('events_judged_after_a_failed_callback')
             return
+        order, self.order = self.order, []
+        if self.cb2_on and order:
+            want = []
+            for who, t, d in order:
+                if who == 'first subscriber':
+                    want += [(who, t, d), ('late subscriber', t, d)]
+            if order != want:
+                self.fail('callbacks', f'a second on-sense callback was registered during the run; this event\'s '
+                          f'measurements were delivered as {order}, expected {want}')
+                return
+            self.sh.count('callback_calls_checked', len(order))
+            self.sh.count('late_subscriber_calls_checked', len(order) // 2)
         # which finished parts must have been measured so far: 1, n+2, 2n+3, ...
         want = []
         for i, (t, part, q, pid, val) in enumerate(self.finished):
@@ -451,6 +518,8 @@ class PartRun:
         with instrument.use_bus(self.bus):
             try:
                 self.system.simulate(0, print_summary=False)     # initialise, so failures can be scheduled
+                if case.get('late_cb') is not None:
+                    self.env.schedule_event(case['late_cb'], -2, self.subscribe_late, 5)
                 for t in case['failures']:
                     self.proc.schedule_failure(t)
                     self.env.schedule_event(t + 0.5, -2, self.proc.restore_functionality, 9)
@@ -500,9 +569,16 @@ def gen_periodic(rng, tie):
     if kind == 'plain':
         for _ in range(rng.randint(2, 15)):
             script.append([rng.random() * horizon, 5, ['sense']])
+    if rng.random() < 0.35:
+        for _ in range(rng.choice([1, 1, 2, 3])):
+            t = rng.random() * horizon
+            if rng.random() < 0.4:
+                t = interval * rng.randint(1, samples)
+            script.append([t, rng.choice([2, 3.5, 5, 10]), [rng.choice(['add_cb', 'add_cb', 'add_cms'])]])
     script = [s for s in script if s[0] <= sum(hs)]
     script.sort(key=lambda e: e[0])
-    return {'engine': 'sensor', 'kind': kind, 'interval': interval,
+    return {'engine': 'sensor', 'cms2': rng.random() < 0.3,
+            'between': [rng.choice(['cb', 'cms']) for _ in range(rng.choice([0, 0, 1, 2]))], 'kind': kind, 'interval': interval,
             'probe_kinds': [rng.choice(['attr', 'attr', 'func', 'missing']) for _ in range(nprobes)],
             'initial': [rng.choice(VALUES) for _ in range(nprobes)],
             'capacity': rng.choice([None, 1, 2, 3, 4, 6]), 'callbacks': rng.choice([0, 1, 2, 3]),
@@ -519,7 +595,8 @@ def gen_part(rng, tie):
             'failures': sorted(rng.sample([x / 2 for x in range(2, 80)], rng.choice([0, 0, 1, 3]))),
             'horizon': float(rng.choice([20, 40, 60, 60, 300])), 'tie': tie, 'tie_seed': rng.randrange(1 << 30),
             'batch': rng.choice([None, None, 2, 3, 4]), 'cb_fails': rng.choice([None, None, None, 1, 2, 3, 4]),
-            'reentrant': rng.random() < 0.3, 'between_ct': rng.choice([0, 0, 0.5])}
+            'reentrant': rng.random() < 0.3, 'between_ct': rng.choice([0, 0, 0.5]),
+            'late_cb': rng.choice([None, None, 0.25, 3.25, 7.0, 15.5])}
 
 
 def run_case(sh, case):
